@@ -223,7 +223,10 @@ def check_import_table(out, df, sig, exp, tol_pos, tol_rot, check_ids=True):
             return False
     R = oracle.R_cc_batch(df[["phi", "theta", "psi"]].to_numpy(dtype=float))
     err = np.abs(R - exp["R"]).max(axis=(1, 2))
-    if (err > tol_rot).any():
+    # within ~1e-6 rad of gimbal lock every Euler extraction on the way (export and import) replaces the tiny tilt by 0:
+    # up to |sin(theta)| per extraction on top of the STAR rounding
+    lock = np.hypot(exp["R"][:, 2, 0], exp["R"][:, 2, 1])
+    if (err > tol_rot + np.where(lock < 2e-6, 2.5 * lock, 0.0)).any():
         i = int(np.argmax(err))
         inv = np.abs(R[i] - exp["R"][i].T).max() <= tol_rot
         out.fail(f"{sig}:orientation_" + ("is_the_inverse" if inv else "differs"), f"row {i}: error {err[i]:.2e}")
